@@ -16,6 +16,7 @@ package server
 // delivered, and - at the end of each history - absent after a restart.
 
 import (
+	"math"
 	"bytes"
 	"fmt"
 	"path/filepath"
@@ -200,6 +201,14 @@ func checkC14(job *Job, res *Result) {
 							// 2. TTL in whole seconds
 							exp := mApply(st, []string{"TTL", k, id})
 							if g := c.Do("TTL", k, id); !mMatch(exp, g) {
+								// remaining time within a microsecond of a whole second: the
+								// integer part depends on the last bit of the clock arithmetic
+								if fr := o.TTL - math.Floor(o.TTL); o.Dead && (fr < 1e-6 || fr > 1-1e-6) {
+									lo, hi := int(math.Floor(o.TTL+0.5))-1, int(math.Floor(o.TTL+0.5))
+									if g.String() == ":"+strconv.Itoa(lo) || g.String() == ":"+strconv.Itoa(hi) {
+										continue
+									}
+								}
 								viol("ttl", fmt.Sprintf("TTL %s %s replied %s, model expects %s (remaining %.3f s)", k, id, g, exp, o.TTL))
 							}
 						}
